@@ -53,18 +53,24 @@ def rule_a(prog, rep):
     dims = T("attr", tm.param("self"), "dims")
     over_dims = tm.contains(it, lambda x: x == dims)
     elt = comp.args[1]
-    ok = False
+    ok = None
     why = "per-dimension element is %s" % tm.show(elt)[:80]
     if elt.op == "ifexp":
         c, a, b = elt.args
-        on_axis = c.op == "cmp" and c.args[0] == "==" and any(x.op == "enumidx" and x.args[1] == lid for x in c.args[1:]) and any(x.op == "iter" for x in c.args[1:])
-        dim_common = a.op == "attr" and a.args[1] == "common" and a.args[0].op == "iter" and a.args[0].args[1] == lid
+        in_loop = lambda x: (x.op in ("enumidx", "iter") and x.args[1] == lid)
+        on_axis = c.op == "cmp" and c.args[0] == "==" and any(in_loop(x) for x in c.args[1:]) and any(x.op == "iter" and x.args[1] != lid for x in c.args[1:])
+        dim_common = a.op == "attr" and a.args[1] == "common" and a.args[0].op == "iter" and a.args[0].args[1] == lid and tm.contains(a.args[0].args[0], lambda x: x == dims)
         whole = b.op == "call" and tm.callee_name(b) == "builtins.slice"
-        ok = on_axis and dim_common and whole and over_dims
-        if on_axis and whole and not dim_common:
+        if on_axis and dim_common and whole and over_dims:
+            ok = True
+        elif on_axis and whole and not tm.contains(a, lambda x: x.op == "attr" and x.args[1] == "common"):
+            ok = False
             why = "on the differenced axis the write goes to %s, which does not depend on that dimension's common value" % tm.show(a)[:40]
-    rep.check(ok, "R-C05-a", where, "common slice = (dim.common if a == axis else slice(None)) per dimension", "depends on COMMON(d) of the differenced dimension", why,
-              witness={"inputs": "re-encode a dimension with common value 1: its common cell moves, the write does not"})
+    if ok is None:
+        rep.undecided("R-C05-a", where, "common slice = (dim.common if a == axis else slice(None)) per dimension", why)
+    else:
+        rep.check(ok, "R-C05-a", where, "common slice = (dim.common if a == axis else slice(None)) per dimension", "depends on COMMON(d) of the differenced dimension", why,
+                  witness={"inputs": "re-encode a dimension with common value 1: its common cell moves, the write does not"})
 
 
 def rule_b(prog, rep):
@@ -139,10 +145,10 @@ def rule_d(prog, rep):
     dels = [e for e in I.events if e.kind == "del_sub" and e["base"] == self_t and not e.stack]
     rebind = [e for e in I.events if e.kind == "store_attr" and e["attr"] == "common" and e["base"] == self_t and not e.stack]
     where = fi.fq
-    if not stores or not dels or len(rebind) != 1:
-        rep.undecided("R-C05-d", where, "event order", "expected stores of the old common rows, a deletion loop and one rebind of .common")
+    if not stores or not dels or not rebind:
+        rep.undecided("R-C05-d", where, "event order", "expected stores of the old common rows, a deletion loop and a rebind of .common")
         return
-    ok = max(s.seq for s in stores) < min(d.seq for d in dels) and max(d.seq for d in dels) < rebind[0].seq
+    ok = max(s.seq for s in stores) < min(d.seq for d in dels) and max(d.seq for d in dels) < min(r.seq for r in rebind)
     rep.check(ok, "R-C05-d", where, "materialise old common rows -> delete new common entries -> rebind .common", "", "the three steps are not in this order",
               witness={"history": "shift_common(v): rows of the old common value are computed after .common changed, so they are the complement of the wrong thing"})
     # keys of the stores: the OLD common value
